@@ -591,6 +591,37 @@ class Builder:
                     k += 1
                 edits.append(Edit(k + 1, k + 1, [Seg("\n        proof { " + ptxt + " }\n", "contract", file="contracts.vc", fn=qual,
                                                      clause="proof-hint")]))
+            # `assert_before <method>`: the same, placed before the statement (or tail expression) that calls `.method(`
+            for (meth, cl) in c.asserts_before:
+                cid = "assert#%s" % (cl.label or meth)
+                if (qual, cid) in self.skip_pieces:
+                    self.report.setdefault("dropped_contract_pieces", []).append("%s %s (no longer type-checks)" % (qual, cid))
+                    fnrec["clauses"].append({"id": cid, "kind": "dropped", "tags": cl.tags, "text": cl.text})
+                    continue
+                occ = list(re.finditer(r"\.\s*" + re.escape(meth) + r"\s*\(", m[body[0]:body[1]]))
+                if not occ:
+                    self.report.setdefault("lost_assert_anchors", []).append("%s before .%s(" % (qual, meth))
+                    continue
+                st = body[0] + occ[-1].start()
+                depth = 0
+                while st > body[0]:
+                    ch = m[st]
+                    if ch in ")]}":
+                        if depth == 0 and ch == "}":
+                            break
+                        depth += 1
+                    elif ch in "([{":
+                        if depth == 0:
+                            break
+                        depth -= 1
+                    elif ch == ";" and depth == 0:
+                        break
+                    st -= 1
+                txt = expand(cl.text)
+                edits.append(Edit(st + 1, st + 1, [Seg("\n", "contract", fn=qual), Seg("        proof { assert(\n", "contract", fn=qual, clause=cid, line=cl.line, file="contracts.vc"),
+                                                   Seg("            " + txt + "\n", "contract", file="contracts.vc", line=cl.line, fn=qual, clause=cid),
+                                                   Seg("        ); }\n", "contract", fn=qual)]))
+                fnrec["clauses"].append({"id": cid, "kind": "assert", "tags": cl.tags, "text": cl.text})
             for (meth, cl) in c.asserts:
                 if (qual, "assert#%s" % (cl.label or meth)) in self.skip_pieces:
                     self.report.setdefault("dropped_contract_pieces", []).append("%s assert#%s (no longer type-checks)" % (qual, cl.label or meth))
